@@ -32,3 +32,51 @@ Definition tm_args_valid (service subservice apid seq msgcnt ref dest version : 
   0 <= service < 256 /\ 0 <= subservice < 256 /\ 0 <= apid <= 2047 /\ 0 <= seq <= 16383 /\
   0 <= msgcnt < 65536 /\ 0 <= ref < 16 /\ 0 <= dest < 65536 /\ 0 <= version < 8 /\
   wf_bytes stamp /\ wf_bytes src /\ len stamp + len src <= 65527.
+
+(* ---- decoder specifications: what the standard's field table assigns to an octet string,
+        with the documented refusals, written on explicit cells (no model functions) ---- *)
+From SP Require Import Base.Result Model.PusTc Model.PusTm.
+
+Definition tc_decode_cells (b0 b1 b2 b3 b4 b5 b6 b7 b8 b9 b10 : Z) (d : bytes) : res tc :=
+    if negb (b6 / 16 =? 2) then Err EValue else
+    let n := b4 * 256 + b5 + 7 in
+    if n <? 13 then Err EValue else
+    if len d <? n then Err ETooShort else
+    if negb (crc16 (firstn (Z.to_nat n) d) =? 0) then Err ECrc else
+    Ok {| tc_sph := sph_of_octets b0 b1 b2 b3 b4 b5;
+          tc_sec := {| tcs_service := b7; tcs_subservice := b8; tcs_source_id := b9 * 256 + b10;
+                       tcs_ack := b6 mod 16 |};
+          tc_app := slice d 11 (n - 2);
+          tc_crc := Some (slice d (n - 2) n) |}.
+
+Definition tc_decode_spec (d : bytes) : res tc :=
+  match d with
+  | b0 :: b1 :: b2 :: b3 :: b4 :: b5 :: b6 :: b7 :: b8 :: b9 :: b10 :: _ =>
+    tc_decode_cells b0 b1 b2 b3 b4 b5 b6 b7 b8 b9 b10 d
+  | _ => Err ETooShort
+  end.
+
+Definition tm_decode_cells (b0 b1 b2 b3 b4 b5 b6 b7 b8 b9 b10 b11 b12 : Z) (d : bytes) (ts : Z) : res tm :=
+      let n := b4 * 256 + b5 + 7 in
+      if negb (b6 / 16 =? 2) then Err EValue else
+      if 7 + ts >? len d - 6 then Err ETooShort else
+      if n <? 15 + ts then Err EValue else
+      if negb (crc16 (firstn (Z.to_nat n) d) =? 0) then Err ECrc else
+      Ok {| tm_sph := sph_of_octets b0 b1 b2 b3 b4 b5;
+            tm_sec := {| tms_version := b6 / 16; tms_ref := b6 mod 16; tms_service := b7;
+                         tms_subservice := b8; tms_msgcnt := b9 * 256 + b10;
+                         tms_dest := b11 * 256 + b12; tms_stamp := slice d 13 (13 + ts) |};
+            tm_src := slice d (13 + ts) (n - 2);
+            tm_crc := Some (slice d (n - 2) n) |}.
+
+Definition tm_decode_spec (d : bytes) (ts : Z) : res tm :=
+  match d with
+  | b0 :: b1 :: b2 :: b3 :: b4 :: b5 :: rest =>
+    if b4 * 256 + b5 + 7 >? len d then Err ETooShort else
+    match rest with
+    | b6 :: b7 :: b8 :: b9 :: b10 :: b11 :: b12 :: _ =>
+      tm_decode_cells b0 b1 b2 b3 b4 b5 b6 b7 b8 b9 b10 b11 b12 d ts
+    | _ => Err ETooShort
+    end
+  | _ => Err ETooShort
+  end.
